@@ -41,13 +41,17 @@ plan('C19',
          Job('c19_date', 'millis', 'plain', quick=600, thorough=20000, shards=(4, 16)),
          Job('c19_date', 'offsets', 'asan', quick=2879, thorough=2879, shards=(8, 8)),
          Job('c19_date', 'offsets', 'plain', quick=2879, thorough=2879, shards=(4, 4)),
+         # the same zoned strings while the process itself lives in another zone (a zoned string must not depend on it)
+         Job('c19_date', 'offsets', 'plain', quick=2879, thorough=2879, shards=(4, 4), params=dict(tz='JST-9'), tag='c19.offsets_tz_jst'),
+         Job('c19_date', 'offsets', 'asan', quick=2879, thorough=2879, shards=(4, 4), params=dict(tz='EST5EDT'), tag='c19.offsets_tz_est5edt'),
+         Job('c19_date', 'offsets', 'plain', quick=2879, thorough=2879, shards=(4, 4), params=dict(tz='NST3:30NDT'), tag='c19.offsets_tz_nst'),
          Job('c19_date', 'parse_mt', 'plain', quick=200, thorough=2000, shards=(4, 8), params=dict(rounds=300)),
          Job('c19_date', 'parse_mt', 'tsan', quick=24, thorough=200, shards=(4, 8), params=dict(rounds=100), batch=4, leakcheck=False),
          Job('c19_date', 'junk', 'asan', quick=3000, thorough=120000, shards=(8, 16)),
      ],
      post=post_c19,
      exhaustive={'thorough': True},
-     assumptions=COMMON_ASSUME + ['TZ=UTC is forced so that LOCAL paths are deterministic',
+     assumptions=COMMON_ASSUME + ['TZ=UTC is forced so that LOCAL paths are deterministic; mode offsets (only strings with Z or a numeric offset, whose instant does not depend on the local zone) additionally runs with the process in JST-9, EST5EDT and NST3:30NDT',
                                   'strings shorter than 19 bytes are stored inline or in a 20-byte block, where an over-read of up to 3 bytes is invisible to ASan'])
 
 
